@@ -61,7 +61,11 @@ def run(pid, tier, seed, replay=None):
         nq = 300 if tier == "quick" else 5000
         c1 = [drv.gen_mincost(rng, nmax=4 if i % 3 == 0 else 8) for i in range(nq)]
         c1 += [drv.gen_mincost_longroute(rng) for _ in range(nq // 2)]
+        c1 += [drv.gen_mincost_huge(rng) for _ in range(nq // 3)]
+        c1 += [drv.gen_mincost_cheapfirst(rng) for _ in range(nq // 3)]
         c2 = [drv.gen_mincost(rng, general=True) for _ in range(nq)]
+        c2 += [drv.gen_mincost_huge(rng, general=True) for _ in range(nq // 2)]
+        c2 += [drv.gen_mincost_cheapfirst(rng, general=True) for _ in range(nq // 2)]
         c3 = [drv.gen_assign(rng) for _ in range(nq // 2)]
         trs = (_fix(run_tasks("flow", "run_mincost", c1 + c2, timeout=120), c1 + c2, "mincost")
                + _fix(run_tasks("flow", "run_assign", c3, timeout=120), c3, "assign"))
